@@ -123,6 +123,9 @@ func RunWorker(h Hooks, cfg WorkerConfig) *WorkerResult {
 		if sc.LongLineAt >= 0 {
 			res.Probes["script-with-line-over-64KiB"]++
 		}
+		if scfg.Fat {
+			res.Probes["script-with-a-statement-of-several-KiB"]++
+		}
 		if len(sc.Bytes) > 4096 {
 			res.Probes["script-input-over-4KiB"]++
 		}
